@@ -24,7 +24,13 @@ def bounds(tier):
 
 
 def expected_clauses(tier):
-    return ['modulus', 'stepup', 'rho', 'rho_monotone', 'nest', 'stage_min', 'criteria', 'pburg', 'input_unchanged', 'pburg_history']
+    out = ['modulus', 'stepup', 'rho', 'rho_monotone', 'nest', 'stage_min', 'criteria', 'pburg', 'input_unchanged', 'pburg_history']
+    try:
+        from spectrum.burg import _arburg2      # private second formulation: only expected while the tree still has it
+        out.append('arburg2')
+    except ImportError:
+        pass
+    return out
 
 
 def _alpha(name):
@@ -143,6 +149,23 @@ def eval_point(pt, R):
             prev_rho = rho
         else:
             R.check(close(k, full[3][:p], 1e-12, 1e-14), 'nest', feats, ptp, k, full[3][:p], 'order-q reflection coefficients are not the first q of the order-p ones')
+        # the second ("independent vectorised") formulation kept in burg.py must describe the same model
+        if p == pmax or p in (1, 2, 5) or 'p' in pt:
+            try:
+                from spectrum.burg import _arburg2
+            except ImportError:
+                _arburg2 = None
+                R.skip('no_second_formulation_in_this_tree')
+            if _arburg2 is not None:
+                R.calls()
+                try:
+                    a2, e2, k2 = _arburg2(x, p)
+                    a2, k2 = np.asarray(a2), np.asarray(k2)
+                    ok2 = a2.shape == (p + 1,) and k2.shape == (p,) and abs(a2[0] - 1.0) <= 1e-12 and close(a2[1:], a, 1e-8 * kap, 1e-10) \
+                        and close(k2, k, 1e-8 * kap, 1e-10) and abs(e2 - rho) <= 1e-8 * kap * power
+                    R.check(ok2, 'arburg2', feats, ptp, [a2, e2], [a, rho], '_arburg2 (second Burg formulation) disagrees with arburg on [1,a], the variance or the reflection coefficients')
+                except Exception as e:
+                    R.viol('arburg2', dict(feats, exc=type(e).__name__), ptp, repr(e), None, '_arburg2 raised on non-degenerate data')
         # variance non increasing in the order (we iterate downwards)
         if p < pmax and p + 1 <= pgood and 'rho_above' in locals():
             R.check(rho_above <= rho * (1 + 1e-12), 'rho_monotone', feats, ptp, [rho, rho_above], 'rho(p+1) <= rho(p)', 'variance increases with the order')
